@@ -4,6 +4,7 @@ from vlib import Inconclusive
 
 
 def run_c16(ctx):
+    ctx.want_clicopy = True
     ctx.build_harness()
     ctx.cli_bin = ctx.build_cli()
     thorough = ctx.tier == "thorough"
@@ -18,6 +19,21 @@ def run_c16(ctx):
                 "--sample", 12 if thorough else 1, "--out", "cli.json", timeout=7200)
     ctx.load_result("cli.json")
     os.unlink(info["out"])
+    # the concatenating reader: all sources x all read schedules (MultiReader.tla), replayed on the real reader
+    rneg = ctx.tlc("MultiReader", "reader_neg", workers=2, timeout=600, must_finish=False)
+    if rneg["finished"]:
+        raise Inconclusive("negative control: the reader that lets EOF through with the last data of a source should violate DeliversAll")
+    ctx.tlc_runs.pop()
+    rd = ctx.tlc("MultiReader", "reader", overrides={"MaxData": 3 if thorough else 2, "MaxCap": 3 if thorough else 2}, workers=16, timeout=3000)
+    reader_note = None
+    if getattr(ctx, "clicopy", False):
+        ctx.harness("reader-replay", "--cases", rd["out"], "--out", "reader.json", timeout=3000)
+        ctx.load_result("reader.json")
+    else:
+        reader_note = ("the reader replay was skipped: cmd/pql no longer has a multiReadCloser{readers} that the harness can "
+                       "compile in (" + getattr(ctx, "clicopy_error", "").strip().splitlines()[-1][:200] + ")")
+        ctx.notes.append(reader_note)
+    os.unlink(rd["out"])
     # input channels and unreadable input: CliInput.tla generates, the binary runs, TLC judges the observations
     io = ctx.tlc("CliInput", "cli_io", workers=16, timeout=3000)
     ctx.harness("cli-io-replay", "--bin", ctx.cli_bin, "--dir", clidir, "--cases", io["out"], "--seed", ctx.seed,
